@@ -213,3 +213,20 @@ Example C09_witness_isolation :
                            (Some (init_state ex_cfg, [255;0;10;80;85;66;10]%N)))
   = exec_conn ex_cfg yes nojson (s_sub ++ [67;76;83;10]%N).
 Proof. vm_compute. reflexivity. Qed.
+
+(* C09_codes on a concrete stream: an accepted SUB, a non-fatal FIN error after which the
+   loop goes on, a fatal RDY error (11 > max-rdy-count 10) after which nothing follows *)
+Definition ev_kind (e : ev) : option (cmd * option code * bool) :=
+  match e with
+  | EvCmd _ c _ _ (HOk _ _ _) => Some (c, None, true)
+  | EvCmd _ c _ _ (HSoft x _ _) => Some (c, Some x, true)
+  | EvCmd _ c _ _ (HFatal x) => Some (c, Some x, false)
+  | _ => None
+  end.
+Example C09_witness_codes :
+  let stream := s_sub ++ [70;73;78;32; 48;49;50;51;52;53;54;55;56;57;97;98;99;100;101;102; 10]%N
+                      ++ [82;68;89;32;49;49;10]%N ++ [78;79;80;10]%N in
+  map ev_kind (steps ex_cfg (fun _ k => match k with KFin _ => false | _ => true end) nojson
+                     (length stream) (init_state ex_cfg) stream)
+  = [Some (CSub, None, true); Some (CFin, Some E_FIN_FAILED, true); Some (CRdy, Some E_INVALID, false)].
+Proof. vm_compute. reflexivity. Qed.
